@@ -840,6 +840,61 @@ async fn d16w_transient_wal_append_failure() {
 	assert_eq!(tx.get(b"k3").unwrap().as_deref(), Some(&b"v3"[..]), "D16w: a commit acknowledged after the failed one is lost by recovery");
 }
 
+// D16x: the sticky gate is read before write_mutex; committers that passed it while another commit's WAL write was
+// failing append behind the torn record and are acknowledged, recovery cuts the log at the torn record
+#[cfg(surrealkv_verif)]
+#[tokio::test(flavor = "multi_thread", worker_threads = 8)]
+async fn d16x_commits_racing_a_failed_wal_write_are_lost() {
+	use std::sync::atomic::Ordering;
+	for round in 0..20 {
+		let d = td();
+		let opts = mk_opts(d.path().to_path_buf(), |o| {
+			o.flush_on_close = false;
+		});
+		let mut acked: Vec<Vec<u8>> = Vec::new();
+		{
+			let tree = Arc::new(Tree::new(Arc::clone(&opts)).unwrap());
+			put(&tree, b"k0", b"v").await;
+			// header of some record succeeds, its payload fails (torn record), once
+			crate::wal::verif_hooks::FAIL_WAL_APPEND_IN.store(41, Ordering::SeqCst);
+			let mut hs = Vec::new();
+			for t in 0..8u32 {
+				let tree = Arc::clone(&tree);
+				hs.push(tokio::spawn(async move {
+					let mut mine = Vec::new();
+					for i in 0..40u32 {
+						let k = format!("t{t}_{i:03}").into_bytes();
+						let mut tx = tree.begin().unwrap();
+						tx.set(&k, b"v").unwrap();
+						match tx.commit().await {
+							Ok(()) => mine.push(k),
+							Err(_) => break,
+						}
+					}
+					mine
+				}));
+			}
+			for h in hs {
+				acked.extend(h.await.unwrap());
+			}
+			crate::wal::verif_hooks::FAIL_WAL_APPEND_IN.store(-1, Ordering::SeqCst);
+			let _ = tokio::time::timeout(std::time::Duration::from_secs(10), tree.close()).await;
+		}
+		let tree = Tree::new(Arc::clone(&opts)).expect("reopen");
+		let tx = tree.begin().unwrap();
+		for k in &acked {
+			assert!(
+				tx.get(k).unwrap().is_some(),
+				"D16x round {round}: acknowledged commit {:?} is lost by recovery ({} acked)",
+				String::from_utf8_lossy(k),
+				acked.len()
+			);
+		}
+		drop(tx);
+		tree.close().await.unwrap();
+	}
+}
+
 // D21: the WAL reader acts on a SetCompressionType record without checking its CRC:
 // one flipped bit in a data record's type byte (Full=1 -> SetCompressionType=9) makes a commit vanish silently
 #[tokio::test(flavor = "multi_thread")]
